@@ -98,10 +98,11 @@ def mon_c03(w, pre, res, queues):
             continue
         w.stats['c03_new_placements'] += 1
         site = w.put_site(n)
-        if srv.state is not State.up:
+        state = getattr(w, 'truth_state', lambda _n, st: st)(after, srv.state)
+        if state is not State.up:
             w.flag('placed-on-non-up-server', site,
                    {'app': w.tmpl[n], 'server': after,
-                    'state': srv.state.value})
+                    'state': state.value, 'model_state': srv.state.value})
         for m in _eligible(srv, app):
             w.flag('placed-without-' + m, site,
                    {'app': w.tmpl[n], 'server': after})
@@ -266,6 +267,8 @@ def mon_c08(w, pre, res, queues):
         st = truth_state(sname, ps['state'])
         if st is State.down:
             down_L = w.down_since_L.get(sname)
+            if down_L is None:
+                continue        # not known to the harness (notification pending)
             for an in ps['apps']:
                 app = cell.apps.get(an)
                 p = pre.apps.get(an)
